@@ -38,7 +38,7 @@ confirmed = res["apply"] == 0 and res["build_with_patch"] == 0 and res["demo_wit
 print("confirmation:", res, "=>", confirmed)
 if not confirmed:
     sys.exit(1)
-out_dir = "/verif/seeded/%s-%s" % (prop, n)
+out_dir = "/verif/seeded/%s-%s%s" % (prop, (os.environ.get("SEED_TAG") + "-") if os.environ.get("SEED_TAG") else "", n)
 os.makedirs(out_dir, exist_ok=True)
 shutil.copy(patch, out_dir + "/patch.diff"); shutil.copy(demo, out_dir + "/demo_test.go")
 # run the checks on /repo with the patch applied
